@@ -378,6 +378,30 @@ def py_eq(a, b, heap):
                  va == vb))
 
 
+def tuple_eq_axioms():
+    """Python == on tuples is structural.  deq (the uninterpreted deep equality used for references) is characterised for tuples
+    of length 1-3 whose items are scalars or references: equal lengths and pairwise equal items (items that are references: the
+    same object or deep-equal).  Longer tuples keep the uninterpreted reading."""
+    from .smt import typ as _typ, cid as _cid, sub as _sub
+    hs = [z3.Const("hq_%s" % n, HEAP_SORTS[n]) for n in SPEC_HEAP]
+    llen_, lel_ = hs[0], hs[1]
+    a, b = z3.Const("ta!", V), z3.Const("tb!", V)
+    ra, rb = V.rv(a), V.rv(b)
+
+    def veq(x, y):
+        both_num = z3.And(smt.is_num(x), smt.is_num(y))
+        return z3.If(both_num, smt.num_real(x) == smt.num_real(y),
+                     z3.If(z3.And(is_ref(x), is_ref(y)), z3.Or(x == y, deq(*(hs + [x, y]))), x == y))
+    ax = []
+    is_t = z3.And(is_ref(a), is_ref(b), _sub(_typ(ra), _cid("tuple")), _sub(_typ(rb), _cid("tuple")))
+    lhs = deq(*(hs + [a, b]))
+    for n in (1, 2, 3):
+        body = z3.And([veq(lel_[ra][i], lel_[rb][i]) for i in range(n)])
+        ax.append(z3.ForAll(hs + [a, b], z3.Implies(z3.And(is_t, llen_[ra] == n, llen_[rb] == n), lhs == body), patterns=[lhs]))
+    ax.append(z3.ForAll(hs + [a, b], z3.Implies(z3.And(is_t, llen_[ra] != llen_[rb]), z3.Not(lhs)), patterns=[lhs]))
+    return ax
+
+
 def _z(x):
     return z3.IntVal(x) if isinstance(x, int) else x
 
